@@ -7,9 +7,12 @@ package vers
 
 // ---- validation (C17): every syntactic rejection reason of the property is an error
 
+//@ spec schemeOf(s string) string = strings.SplitN(s[5:], "/", 2)[0]
 //@ func valid
 //@   ensures shape: result == nil ==> len(versString) >= 5 && len(strings.SplitN(versString[5:], "/", 2)) == 2
 //@   ensures prefix: !strings.HasPrefix(versString, "vers:") ==> result != nil                              [C17]
+//@   ensures scheme-charset: strings.HasPrefix(versString, "vers:") && len(strings.SplitN(versString[5:], "/", 2)) == 2 ==> (forall i int :: 0 <= i && i < len(schemeOf(versString)) && !((schemeOf(versString)[i] >= 'a' && schemeOf(versString)[i] <= 'z') || (schemeOf(versString)[i] >= '0' && schemeOf(versString)[i] <= '9')) ==> result != nil)   [C17]
+//@   ensures printable-ascii: forall i int :: 0 <= i && i < len(versString) && (versString[i] < 32 || versString[i] > 126) ==> result != nil   [C17]
 //@   ensures separator: strings.HasPrefix(versString, "vers:") && len(strings.SplitN(versString[5:], "/", 2)) != 2 ==> result != nil   [C17]
 //@   ensures empty-scheme: strings.HasPrefix(versString, "vers:") && len(strings.SplitN(versString[5:], "/", 2)) == 2 && strings.SplitN(versString[5:], "/", 2)[0] == "" ==> result != nil   [C17]
 //@   ensures empty-constraints: strings.HasPrefix(versString, "vers:") && len(strings.SplitN(versString[5:], "/", 2)) == 2 && strings.SplitN(versString[5:], "/", 2)[1] == "" ==> result != nil   [C17]
